@@ -50,8 +50,20 @@ def run_scenario(cfg, chooser, max_steps=20000):
         S["seq"] += 1
         return S["seq"]
 
+    prebuilt = []
+    if cfg.get("prebuilt"):
+        # the channel is created by synchronous set-up code, before the loop that will use it exists (what asyncio's
+        # "current" loop is at that moment - here a decoy that never runs - must not matter)
+        decoy = asyncio.new_event_loop()
+        try:
+            asyncio.set_event_loop(decoy)
+            prebuilt.append(AsyncChannel(buffer_limit=cfg.get("buffer", 0)))
+        finally:
+            asyncio.set_event_loop(None)
+            decoy.close()
+
     async def main():
-        ch = AsyncChannel(buffer_limit=cfg.get("buffer", 0))
+        ch = prebuilt[0] if prebuilt else AsyncChannel(buffer_limit=cfg.get("buffer", 0))
         sender_items = []
         n = 0
         for s in cfg["senders"]:
@@ -396,6 +408,8 @@ def cfg_class(cfg):
         parts.append("send_from_close")
     if cfg.get("falsy_items"):
         parts.append("falsy_items")
+    if cfg.get("prebuilt"):
+        parts.append("built_before_the_loop")
     return "|".join(parts)
 
 
@@ -415,6 +429,8 @@ SMALL_CONFIGS = [
     {"name": "2rx_bounded1_1s1i", "senders": [{"items": 1, "mode": "send"}], "receivers": [{"mode": "receive"}, {"mode": "receive"}], "buffer": 1},
     {"name": "timeout_then_items", "senders": [{"items": 2, "mode": "send", "delay": 7}], "receivers": [{"mode": "receive", "timeout": 5}, {"mode": "receive"}], "closer_vdelay": 10},
     {"name": "2s1i_1rx", "senders": [{"items": 1, "mode": "send"}, {"items": 1, "mode": "send"}], "receivers": [{"mode": "receive"}]},
+    {"name": "prebuilt_1s1i_2rx", "senders": [{"items": 1, "mode": "send"}], "receivers": [{"mode": "receive"}, {"mode": "iter"}], "prebuilt": True},
+    {"name": "prebuilt_bounded1_sendfrom_close_2rx", "senders": [{"items": 2, "mode": "send_from_close"}], "receivers": [{"mode": "iter"}, {"mode": "receive"}], "buffer": 1, "prebuilt": True},
 ]
 THOROUGH_CONFIGS = [
     {"name": "2s2i_2rx", "senders": [{"items": 2, "mode": "send"}, {"items": 2, "mode": "send"}], "receivers": [{"mode": "receive"}, {"mode": "iter"}]},
@@ -492,6 +508,8 @@ def targets(ctx):
                "closer_delay": draw(st.integers(0, 3))}
         if draw(st.integers(0, 3)) == 0:
             cfg["falsy_items"] = True
+        if draw(st.integers(0, 3)) == 0:
+            cfg["prebuilt"] = True
         if draw(st.integers(0, 2)) == 0:
             cfg["cancel"] = {"target": draw(st.integers(0, nr - 1)), "delay": draw(st.integers(0, 4))}
         return {"cfg": cfg, "choices": draw(st.lists(st.integers(0, 5), max_size=60))}
